@@ -45,15 +45,17 @@ VARIABLE c
 \* ipHeader; the request carries OTHER client-IP headers only (claiming a trusted / untrusted address)
 \* host: the request's own Host lies under a configured cookie domain ("on") or under none of them ("off": the proxy addressed by
 \* IP or an internal name - the case in which a cookie-domain choice has the most freedom)
-Init == \E ep \in Endpoints, cr \in Creds, cf \in Cfgs, S \in HdrSets, mode \in {"off", "on_other_ip"}, iph \in IPHeaders, host \in {"on", "off"}, conn \in {"plain", "tls"} :
+Init == \E ep \in Endpoints, cr \in Creds, cf \in Cfgs, S \in HdrSets, mode \in {"off", "on_other_ip"}, iph \in IPHeaders, host \in {"on", "off"}, conn \in {"plain", "tls"}, peer \in {"tcp", "unix"} :
           \E hv \in [S -> {"a", "b"}] :
             /\ (host = "off" => mode = "off" /\ cf = "plain")
+            \* peer = "unix": the request arrives on a unix-socket listener (the peer address is "@", no IP at all)
+            /\ (peer = "unix" => mode = "off" /\ cf = "plain" /\ host = "on" /\ conn = "plain" /\ ep \in {"protected", "authonly"} /\ S \subseteq IPHeaders /\ iph = "X-Real-IP")
             \* conn = "tls": the request reaches the proxy over TLS (what force-https exempts from its redirect)
             /\ (conn = "tls" => mode = "off" /\ host = "on" /\ cf \in {"forcehttps", "plain"})
             \* (with reverse-proxy off a configured real-client-IP header is just as inert as the default one)
             /\ (mode = "off" /\ iph # "X-Real-IP" => cf = "plain" /\ host = "on" /\ conn = "plain" /\ ep \in {"protected", "authonly"} /\ S \subseteq IPHeaders)
             /\ (mode = "on_other_ip" => S \subseteq (IPHeaders \ {iph}) /\ cf = "plain" /\ ep \in {"protected", "authonly"})
-            /\ c = [endpoint |-> ep, cred |-> cr, cfg |-> cf, mode |-> mode, ipHeader |-> iph, host |-> host, conn |-> conn,
+            /\ c = [endpoint |-> ep, cred |-> cr, cfg |-> cf, mode |-> mode, ipHeader |-> iph, host |-> host, conn |-> conn, peer |-> peer,
                     hdr |-> [h \in S |-> IF hv[h] = "a" THEN CHOOSE v \in Values(h) : \A w \in Values(h) : v = w \/ v \in {"whitelisted", "https", "skipauth", "trusted", "benign"}
                                          ELSE CHOOSE v \in Values(h) : v \notin {"whitelisted", "https", "skipauth", "trusted", "benign"}]]
 Next == UNCHANGED c
